@@ -22,6 +22,8 @@ static inline bool nstring_empty(const nstring *a)
 { return a->id == 0; }
 static inline bool nstring_ne_cstr(const nstring *a, const char *lit)
 { __CPROVER_assert(lit[0] == 'n' && lit[1] == 'o' && lit[2] == 'n' && lit[3] == 'e' && lit[4] == 0, "only the literal \"none\" is modelled"); return a->id != 1; }
+static inline bool nstring_eq_cstr(const nstring *a, const char *lit)
+{ return !nstring_ne_cstr(a, lit); }
 static inline bool isScalable(const nstring *a, const nstring *b)
 { __CPROVER_assert(a->id >= 0 && a->id < NSTR_IDS && b->id >= 0 && b->id < NSTR_IDS, "string ids in range"); return gh_scal[a->id][b->id]; }
 static inline vec_nstr getDimensionsUnits_list(const DataArray *darray)
